@@ -136,6 +136,9 @@ def run(ctx):
                    lambda k: gen_obs[k], show=lambda k: dict(msg=U.short(msgs[k][0]), legacy=msgs[k][1]))
     # layout oracle (encoder): octets == independent transcription of the PDU layout
     for k, (m, legacy) in enumerate(msgs):
+        if (gen_obs[k][0] == 0) != U.spec_valid(m):
+            ctx.oracle_fail("gen_msg %s a message that is %s the protocol ranges" % (("refuses", "within") if U.spec_valid(m) else ("encodes", "outside")),
+                            dict(msg=U.short(m), legacy=legacy), key="c04-encodable:%s-v%s" % (m["kind"], m["ver"]))
         if gen_obs[k][0] != 0:
             continue
         exp = layout_tx(m, legacy) if m["kind"] == "tx" else layout_rx(m, legacy)
